@@ -169,6 +169,16 @@ class Asn1Anchors:
                         src = next((k.value for k in tag.keywords if k.arg == "tag_number"), tag.args[1] if len(tag.args) > 1 else None)
                 if isinstance(src, ast.Name):
                     defs_from_calls(self.header, src.id)
+        if what != "length" and not out:
+            # the identifier is decoded by a helper of the header routine: the ASN1Tag(...) it builds tells where the number comes from
+            for f in self.header_family:
+                if f is self.header:
+                    continue
+                for n in walk_no_nested(f.node):
+                    if isinstance(n, ast.Call) and m.resolve_name(ASN1, norm(n.func)) == f"{ASN1}.ASN1Tag":
+                        src = next((k.value for k in n.keywords if k.arg == "tag_number"), n.args[1] if len(n.args) > 1 else None)
+                        if isinstance(src, ast.Name):
+                            defs_from_calls(f, src.id)
         return out
 
     def _number_consumers(self) -> List[FuncInfo]:
